@@ -65,6 +65,8 @@ pub enum R1Op {
     AllocAffine { mode: Mode, src: ESrc },
     /// new_witness::<Element> of arbitrary coordinates
     WitnessOffer { offer: Offer },
+    /// the same through the other allocation entry point, new_witness::<AffinePoint>
+    WitnessOfferAffine { offer: Offer },
     /// CurveVar::new_variable_omit_prime_order_check (witness mode) of arbitrary coordinates: a public
     /// constructor that performs no decaf validity check (C14 circuits only)
     AllocUnchecked { offer: Offer },
@@ -181,6 +183,6 @@ impl Circuit {
     pub fn dishonest(&self) -> bool {
         self.hints.iter().any(|h| !h.is_honest())
             || self.enc_hints.iter().any(|e| *e != EncSub::Honest)
-            || self.ops.iter().any(|o| matches!(o, R1Op::WitnessOffer { offer } if !matches!(offer, Offer::Honest(_))))
+            || self.ops.iter().any(|o| matches!(o, R1Op::WitnessOffer { offer } | R1Op::WitnessOfferAffine { offer } if !matches!(offer, Offer::Honest(_))))
     }
 }
